@@ -78,7 +78,11 @@ func refHeader(v *refVariant, n int) []byte {
 // formed and returns the compact length prefixes it met and whether a byte
 // string declares a giant length (see giantDecl).
 func refNodeScan(in []byte) (comp []compactPos, giant bool) {
-	if len(in) == 0 {
+	return refNodeScanDepth(in, 0)
+}
+
+func refNodeScanDepth(in []byte, depth int) (comp []compactPos, giant bool) {
+	if len(in) == 0 || depth > 4 {
 		return
 	}
 	v := refVariantOf(in[0])
@@ -115,7 +119,7 @@ func refNodeScan(in []byte) (comp []compactPos, giant bool) {
 		bitmap = uint16(in[p]) | uint16(in[p+1])<<8
 		p += 2
 	}
-	bytesLeaf := func() bool {
+	bytesLeaf := func(child bool) bool {
 		w := &walker{in: in, pos: p}
 		l, ok := w.compact("compact-uint", 8, true)
 		if !ok {
@@ -127,6 +131,17 @@ func refNodeScan(in []byte) (comp []compactPos, giant bool) {
 			giant = true
 		}
 		p = w.pos
+		if child && l > 0 && l < 32 {
+			// an inlined child is itself a node (node.Decode decodes it recursively; a
+			// short read is zero-filled by the decoder under test)
+			sub := make([]byte, l)
+			if p < len(in) {
+				copy(sub, in[p:])
+			}
+			if _, g := refNodeScanDepth(sub, depth+1); g {
+				giant = true
+			}
+		}
 		if uint64(len(in)-p) < l {
 			return false
 		}
@@ -135,7 +150,7 @@ func refNodeScan(in []byte) (comp []compactPos, giant bool) {
 	}
 	switch v.value {
 	case 1:
-		if !bytesLeaf() {
+		if !bytesLeaf(false) {
 			return
 		}
 	case 2:
@@ -146,7 +161,7 @@ func refNodeScan(in []byte) (comp []compactPos, giant bool) {
 	}
 	for i := 0; i < 16; i++ {
 		if bitmap>>i&1 == 1 {
-			if !bytesLeaf() {
+			if !bytesLeaf(true) {
 				return
 			}
 		}
@@ -239,9 +254,15 @@ func (d *mapDB) Get(key []byte) ([]byte, error) {
 	}
 	return v, nil
 }
-func (d *mapDB) NewBatch() database.Batch     { return &mapBatch{db: d} }
-func (b *mapBatch) Put(key, value []byte) error { b.ops = append(b.ops, [2][]byte{append([]byte(nil), key...), append([]byte(nil), value...)}); return nil }
-func (b *mapBatch) Del(key []byte) error      { b.ops = append(b.ops, [2][]byte{append([]byte(nil), key...), nil}); return nil }
+func (d *mapDB) NewBatch() database.Batch { return &mapBatch{db: d} }
+func (b *mapBatch) Put(key, value []byte) error {
+	b.ops = append(b.ops, [2][]byte{append([]byte(nil), key...), append([]byte(nil), value...)})
+	return nil
+}
+func (b *mapBatch) Del(key []byte) error {
+	b.ops = append(b.ops, [2][]byte{append([]byte(nil), key...), nil})
+	return nil
+}
 func (b *mapBatch) Flush() error {
 	for _, op := range b.ops {
 		if op[1] == nil {
@@ -265,8 +286,8 @@ type harvested struct {
 }
 
 // harvest builds a real in-memory trie from tape contents and collects the
-// encodings of all its nodes (node.Encode), of the nodes as written to the
-// database (WriteDirty) and of proof nodes (proof.Generate).
+// encodings of all its nodes (node.Encode) and of proof nodes (proof.Generate
+// over the database written by WriteDirty).
 func harvest(k *kernel.K) []harvested {
 	t := inmemory.NewEmptyTrie()
 	ver := "v0"
@@ -318,17 +339,9 @@ func harvest(k *kernel.K) []harvested {
 	} else {
 		k.Probe("proof-generate-failed")
 	}
-	// database contents (sorted: map order must not leak into the run)
-	dbk := make([]string, 0, len(db.m))
-	for key := range db.m {
-		dbk = append(dbk, key)
-	}
-	sort.Strings(dbk)
-	for _, key := range dbk {
-		if len(key) == 32 {
-			out = append(out, harvested{what: ver + " database node", enc: db.m[key]})
-		}
-	}
+	// (The database written by WriteDirty holds exactly the encodings collected
+	// above, under their hashes, plus - for V1 - raw hashed values under partial
+	// key + value hash, which are not nodes; nothing more to harvest there.)
 	return out
 }
 
